@@ -107,6 +107,22 @@ fn one(m: &LinearModel, mut tags: Vec<String>) -> Case {
     if m.variables().iter().chain(m.constraints().iter().map(|r| r.name()).collect::<Vec<_>>().iter())
         .any(|n| LP_RESERVED.contains(&n.to_lowercase().as_str()) || n.to_lowercase() == "infinity") { tags.push("lp-keyword-name".into()); }
     tags.push(if num_tokens_ok(m) { "numtoken-ok".into() } else { "numtoken-hyp-fails".to_string() });
+    // the decidable part of `WellFormed` (hypotheses of the theorem `read_write`), re-evaluated here
+    let sym = |c: char| "!\"#$%&(),;?@_'`{}~[]/|".contains(c);
+    let name_ok = |n: &str| {
+        let mut cs = n.chars();
+        match cs.next() {
+            None => false,
+            Some(c) => (c.is_ascii_alphabetic() || sym(c)) && cs.all(|c| c.is_ascii_alphanumeric() || sym(c) || c == '.')
+                && !LP_RESERVED.contains(&n.to_lowercase().as_str()) && n.to_lowercase() != "infinity",
+        }
+    };
+    let names_ok = m.variables().iter().all(|v| name_ok(v)) && m.domain().keys().all(|v| name_ok(v))
+        && m.constraints().iter().all(|r| r.name().is_empty() || name_ok(&r.name()));
+    let finite_ok = all_nums.iter().all(|v| v.is_finite());
+    let bounds_ok = m.domain().values().all(|d| match d.get_type() {
+        VariableType::NonNegativeReal(a, b) | VariableType::Real(a, b) => !a.is_nan() && !b.is_nan(), _ => true });
+    tags.push(if names_ok && finite_ok && bounds_ok && num_tokens_ok(m) { "read-write-hypotheses-hold".into() } else { "outside-read-write-hypotheses".to_string() });
     tags.sort();
     tags.dedup();
     c.tags = tags;
@@ -223,6 +239,22 @@ pub fn generate(seed: u64, n: usize, _thorough: bool, _corpus: Option<&str>) -> 
     let mut r = Rng::new(seed);
     let mut cases = vec![];
     for (m, tag) in seeded() { cases.push(one(&m, vec![tag.to_string(), "seeded".into()])); }
+    // corpus: source programs, compiled by the real front end, then exported
+    if let Some(dir) = _corpus {
+        if let Ok(rd) = std::fs::read_dir(dir) {
+            let mut files: Vec<_> = rd.filter_map(|e| e.ok()).map(|e| e.path()).filter(|p| p.extension().map(|x| x == "rooc").unwrap_or(false)).collect();
+            files.sort();
+            for f in files {
+                if let Ok(src) = std::fs::read_to_string(&f) {
+                    let lm = std::panic::catch_unwind(move || {
+                        rooc::RoocParser::new(src).parse_and_transform(vec![], &indexmap::IndexMap::new()).ok()
+                            .and_then(|m| rooc::Linearizer::linearize(m).ok())
+                    }).ok().flatten();
+                    if let Some(lm) = lm { cases.push(one(&lm, vec!["corpus".into(), "compiled-linear-model".into()])); }
+                }
+            }
+        }
+    }
     // single-coefficient sweep: every interesting number as coefficient, rhs, offset and bound
     let sweep: Vec<f64> = vec![0.0, -0.0, 1.0, -1.0, 0.5, -0.5, 0.1, -0.1, 1e-9, -1e-9, 1e-6, -1e-6, 1e-5, -1e-5, 1e9, -1e9, 123456.789,
         1.0000000000000002, 0.3333333333333333, 2.5e-7, 1e21, 1e22, 5e-324, 1.7976931348623157e308, 4503599627370497.5];
